@@ -679,6 +679,25 @@ fn maybe_runtype_any_of_discriminated(
                             })
                             .collect::<BTreeSet<_>>();
 
+                        // a value admitted by every member does not narrow the union: printing its case
+                        // would print this same union again, without end
+                        let shared_by_all = discriminator_strings.iter().any(|key| {
+                            object_vs.iter().all(|vs| {
+                                extract_union(
+                                    vs.get(&discriminator)
+                                        .expect("we already checked the discriminator exists")
+                                        .inner(),
+                                    named_schemas,
+                                )
+                                .into_iter()
+                                .filter_map(|it| it.extract_single_string_const())
+                                .any(|it| it == *key)
+                            })
+                        });
+                        if shared_by_all {
+                            continue;
+                        }
+
                         return Some(runtype_any_of_discriminated(
                             original_runtype,
                             flat_values,
